@@ -149,6 +149,28 @@ def rules(P, R, prefix="C18"):
                 (R.ok if r["ok"] else R.fail)(prefix + ".X4", "C04.S3:" + r["key"].split("|", 1)[1], r["loc"], r["detail"])
         R.floor(prefix + ".X4", n4, 3, "crypto entry-point obligations (C04.S3)" + tag)
 
+        # ---------------- X6 the signing service answers each request with the signature of THAT request's digest
+        ssn = prog.fn("crypto::SignatureService::new")
+        if R.judge(ssn is not None, prefix + ".X6", "anchor SignatureService::new" + tag, "", "", "anchor-missing", reason="anchor-missing"):
+            c6 = env.ctx(ssn)
+            from ..wiring import ONESHOT_SEND
+            reps = [n for n in ssn.nodes() if n["k"] == "mcall" and ONESHOT_SEND in callee_paths(n)]
+            R.floor(prefix + ".X6", len(reps), 1, "replies of the signature service" + tag)
+            for i, n in enumerate(reps):
+                ht = c6.term(n["recv"])
+                vt = c6.term(n["args"][0])
+                m = re.match(r"^(?P<req>.+)\.1$", ht)
+                ok6 = bool(m) and vt == "crypto::Signature::new(%s.0,«SecretKey»)" % m.group("req") and ".recv()" in ht
+                R.judge(ok6, prefix + ".X6", key(ssn, "reply = Signature::new(digest of the same request, own secret key)" + tag, i), n["sp"], "%s <- %s" % (ht, vt),
+                        "the service answers handle `%s` with `%s`: not the signature of the digest that came with that handle" % (ht, vt))
+            rq = prog.fn("crypto::SignatureService::request_signature")
+            if rq is not None:
+                cq = env.ctx(rq)
+                ss_ = [n for n in rq.nodes() if n["k"] == "mcall" and "tokio::sync::mpsc::bounded::Sender::<T>::send" in callee_paths(n)]
+                okq = len(ss_) == 1 and cq.term(ss_[0]["args"][0]) == "(«Digest»,tokio::sync::oneshot::channel().0)"
+                R.judge(okq, prefix + ".X6", key(rq, "request carries (digest, reply handle of this call)" + tag), rq.sp, str([cq.term(x["args"][0]) for x in ss_]),
+                        "request_signature sends %s" % [cq.term(x["args"][0]) for x in ss_])
+
         # ---------------- X5 files
         rd, wr = prog.fn("node::config::Export::read"), prog.fn("node::config::Export::write")
         if R.judge(rd is not None and wr is not None, prefix + ".X5", "anchors Export::read/write" + tag, "", "", "anchor-missing", reason="anchor-missing"):
